@@ -106,6 +106,7 @@ func scanSites(ld *sym.Loaded) []site {
 var nondetAllow = map[string]string{
 	"map-range|github.com/reedom/convergen/pkg/util.NewImportNames|github.com/reedom/convergen/pkg/util.ImportNames":           "order-independence decided by C13ImportTable",
 	"map-range|(github.com/reedom/convergen/pkg/util.ImportNames).LookupPath|github.com/reedom/convergen/pkg/util.ImportNames": "order-independence decided by C13ImportTable",
+	"map-range|github.com/reedom/convergen/pkg/parser.NewParser|github.com/reedom/convergen/pkg/util.ImportNames":              "collision test for blank imports: any collision yields \"_\", whatever the order; decided under every order by C13BlankImport",
 	"random-id|(*github.com/reedom/convergen/pkg/parser.Parser).findConvergenEntries|github.com/matoous/go-nanoid.Nanoid":      "marker independence decided by C11MarkerSubstitution (content-independent-of-markers)",
 	"nondet-call|github.com/matoous/go-nanoid.Format|crypto/rand.Read":                                                         "source of the random marker (see random-id)",
 	"nondet-call|github.com/matoous/go-nanoid.Generate|crypto/rand.Read":                                                       "source of the random marker (see random-id)",
@@ -123,6 +124,12 @@ var osAllow = map[string]string{
 	"os-call|github.com/reedom/convergen/pkg/runner.Run|os.OpenFile":                       "log file, C15Run",
 	"os-call|(*github.com/reedom/convergen/pkg/generator.Generator).Generate|os.WriteFile": "the output write, C15Run/C18Generate",
 	"os-call|github.com/reedom/convergen.main|os.Exit":                                     "exit status",
+	"os-call|github.com/reedom/convergen/pkg/parser.NewParser|path/filepath.Abs":           "pure path computation for the loader's directory and query (reads the working directory, writes nothing), C12LoaderHook load.call",
+	"os-call|github.com/reedom/convergen/pkg/parser.NewParser|path/filepath.Dir":           "pure path computation",
+	"os-call|github.com/reedom/convergen/pkg/parser.blankOverlay|os.Stat":                  "read-only (directory identity), C12LoaderHook",
+	"os-call|github.com/reedom/convergen/pkg/parser.blankOverlay|os.SameFile":              "pure",
+	"os-call|github.com/reedom/convergen/pkg/parser.blankOverlay|path/filepath.Join":       "pure path computation",
+	"os-call|github.com/reedom/convergen/pkg/parser.blankOverlay|path/filepath.Base":       "pure path computation",
 	"os-call|github.com/reedom/convergen/pkg/parser.blankOverlay|path/filepath.Abs":        "pure path computation for the loader overlay key (reads the working directory, writes nothing)",
 	"os-call|github.com/reedom/convergen/pkg/parser.blankOverlay|path/filepath.Dir":        "pure path computation",
 }
